@@ -176,14 +176,25 @@ func (m *Machine) RunCase(fnName string, s *Solver, opts Options) CaseResult {
 		call(i, nil, token.NoPos, pkg.Func("init"), nil)
 		if i.redirect == nil {
 			i.redirect = map[string]*ssa.Function{}
+			add := func(mm map[value]value) {
+				for k, v := range mm {
+					f := pkg.Func(v.(string))
+					if f == nil {
+						panic(pathAbort{"engine: vStubTable names no harness function " + v.(string)})
+					}
+					i.redirect[k.(string)] = f
+				}
+			}
+			// vStubTable applies to every harness of the directory; vStubTableFor[fn] to one
 			if g, ok := pkg.Members["vStubTable"].(*ssa.Global); ok {
 				if mm, ok := (*i.globals[g]).(map[value]value); ok {
-					for k, v := range mm {
-						f := pkg.Func(v.(string))
-						if f == nil {
-							panic(pathAbort{"engine: vStubTable names no harness function " + v.(string)})
-						}
-						i.redirect[k.(string)] = f
+					add(mm)
+				}
+			}
+			if g, ok := pkg.Members["vStubTableFor"].(*ssa.Global); ok {
+				if outer, ok := (*i.globals[g]).(map[value]value); ok {
+					if inner, ok := outer[fnName].(map[value]value); ok {
+						add(inner)
 					}
 				}
 			}
